@@ -44,7 +44,21 @@ def hits_of(results):
     return [[int(dn), _scaled(sc)] for sc, dn in results.top_n]
 
 
-def obs_paths(searcher, q, paths, limits=(0, 1, 2, 3), cmp="full", alt=False):
+# (queries with Not are left out: whether the negated clause's term matchers stand on a document that the
+# query matches through another clause depends on when the inverse matcher last moved them)
+MT_OPS = set(["term", "null", "every", "and", "or", "dismax", "const", "andnot", "andmaybe", "require", "phrase",
+              "prefix", "wildcard", "termrange"])
+
+
+def _codes(text):
+    from harness import world
+    inv = dict((v, k) for k, v in world.LETTERS.items())
+    if isinstance(text, bytes):
+        text = text.decode("utf8")
+    return [inv.get(ch, 99) for ch in text]
+
+
+def obs_paths(searcher, q, paths, limits=(0, 1, 2, 3), cmp="full", alt=False, aq=None):
     """Returns the list of observations for query object q through the given access paths."""
     from whoosh import sorting
     obs = []
@@ -106,12 +120,28 @@ def obs_paths(searcher, q, paths, limits=(0, 1, 2, 3), cmp="full", alt=False):
         def f():
             r = searcher.search(q, limit=None, terms=True)
             obs.append({"kind": "ranked", "path": "search(limit=None,terms=True)", "k": 0, "hits": hits_of(r), "cmp": cmp})
+            if aq is not None and ops_of(aq) <= MT_OPS and '"mtype"' not in json.dumps(aq):
+                obs.append({"kind": "matchedterms", "path": "Hit.matched_terms() of search(limit=None,terms=True)",
+                            "partial": False,
+                            "hits": sorted([int(h.docnum), sorted([f, _codes(t)] for f, t in h.matched_terms())]
+                                           for h in r)})
             r2 = searcher.search(q, limit=2, terms=True)
             o = {"kind": "ranked", "path": "search(limit=2,terms=True)", "k": 2, "hits": hits_of(r2), "cmp": cmp}
             if alt:
                 with scaled_wrapping_replace():
                     o["alt"] = hits_of(searcher.search(q, limit=2, terms=True))
             obs.append(o)
+            if aq is not None and ops_of(aq) <= MT_OPS and '"mtype"' not in json.dumps(aq):
+                mo = {"kind": "matchedterms", "path": "Hit.matched_terms() of search(limit=2,terms=True)",
+                      "partial": True,
+                      "hits": sorted([int(h.docnum), sorted([f, _codes(t)] for f, t in h.matched_terms())]
+                                     for h in r2)}
+                if alt:
+                    with scaled_wrapping_replace():
+                        r3 = searcher.search(q, limit=2, terms=True)
+                        mo["alt"] = sorted([int(h.docnum), sorted([f, _codes(t)] for f, t in h.matched_terms())]
+                                           for h in r3)
+                obs.append(mo)
             obs.append({"kind": "count", "path": "len(search(limit=2,terms=True))", "n": len(r2)})
         guard("search(terms=True)", f)
     return obs
